@@ -64,6 +64,9 @@ def _run_patch(pid, mod, tier, tree, m, res):
 
 def run(pid, mod, tier="thorough"):
     muts = list(getattr(mod, "MUTANTS", []))
+    mf = os.path.join(core.VERIF, "vrules", "mutants", pid.lower() + ".json")
+    if os.path.exists(mf):
+        muts += json.load(open(mf))
     # independently written breaking changes archived under /verif/seeded/<dir>/ (meta.json names the property)
     sd = os.path.join(core.VERIF, "seeded")
     for d in sorted(os.listdir(sd)) if os.path.isdir(sd) else []:
